@@ -58,6 +58,7 @@ type c30evt struct {
 	ptr    Task
 	err    error
 	list   []int
+	ptrs   []Task
 	a      int
 	mgr    Manager
 	resume chan c30reply
@@ -97,6 +98,7 @@ func (e *c30env) gate(gen, phase int, call string, t Task, err error, list []Tas
 	}
 	for _, x := range list {
 		g.list = append(g.list, e.taskID(x))
+		g.ptrs = append(g.ptrs, x)
 	}
 	e.ev <- g
 	r := <-g.resume
@@ -170,6 +172,7 @@ type c30poll struct {
 	next int
 	cur  int
 	rem  []int
+	snap []Task // the task objects GetFailed returned (they age with the clock)
 	g    *c30evt
 }
 
@@ -401,6 +404,16 @@ func (c *c30case) tick(dt int) {
 			}
 			if _, err := c.db.Exec(`UPDATE writeback_task SET created_at=?, last_attempt=? WHERE namespace=? AND name=?`, cr, la, r.Namespace, r.Name); err != nil {
 				panic(err)
+			}
+		}
+	}
+	if c.poll != nil && dt > 0 { // the poller's snapshot lives in memory: the same time passes for it
+		for _, x := range c.poll.snap {
+			if w, ok := x.(*writeback.Task); ok {
+				w.CreatedAt = w.CreatedAt.Add(-time.Duration(dt) * c30unit)
+				if w.LastAttempt.Year() > 1000 {
+					w.LastAttempt = w.LastAttempt.Add(-time.Duration(dt) * c30unit)
+				}
 			}
 		}
 	}
@@ -687,7 +700,7 @@ func (c *c30case) pollGet() {
 	if g == nil {
 		return
 	}
-	c.poll = &c30poll{pos: 0, rem: g.list, g: g}
+	c.poll = &c30poll{pos: 0, rem: g.list, snap: g.ptrs, g: g}
 	c.emit("OpPollGet "+verifhlib.Ns(g.list), "ODone")
 }
 
